@@ -73,7 +73,8 @@ def doAdupdates (l : Line) : Option String := do
   for A in As do shape? A (Mat.rows A) dv
   let P : AduP Rat RV RV :=
     { m := m, L := fun i => Mat.mulVec (fam As [] i), Ladj := fun i => Mat.mulVec (fam Ats [] i),
-      prox := fun i => (fam ps .id i).eval, stepsize := stepsize, inner := fam inner (.scalar 0),
+      prox := fun i => (fam ps .id i).eval, proxSimple := fun i => (fam ps .id i).eval,
+      stepsize := stepsize, inner := fam inner (.scalar 0),
       mulW := Vec.mul, rid := fam rid 0, cbInner := cb = "inner" }
   let duals0 : Nat → RV := fun i => Vec.zero (Mat.rows (fam As [] i))
   match variant with
